@@ -426,3 +426,136 @@ def yoda_tree(root):
 
 def aug_expand_tree(root):
     return _rewrite_tree(root, _AugExpand)
+
+
+# ---------------------------------------------------------------------------------------------------------
+# second batch
+# ---------------------------------------------------------------------------------------------------------
+class _RetViaLocal(ast.NodeTransformer):
+    """return EXPR  ->  result_ = EXPR; return result_     (not for bare names / constants / generators' bare return)"""
+    count = 0
+
+    def _block(self, stmts):
+        out = []
+        for st in stmts:
+            if isinstance(st, ast.Return) and st.value is not None and not isinstance(st.value, (ast.Name, ast.Constant)):
+                self.count += 1
+                out.append(ast.Assign(targets=[ast.Name(id='result_', ctx=ast.Store())], value=st.value, lineno=st.lineno))
+                out.append(ast.Return(value=ast.Name(id='result_', ctx=ast.Load())))
+            else:
+                out.append(st)
+        return out
+
+    def generic_visit(self, node):
+        super().generic_visit(node)
+        if isinstance(node, ast.ClassDef):
+            return node
+        for field in ('body', 'orelse', 'finalbody'):
+            v = getattr(node, field, None)
+            if isinstance(v, list) and v and isinstance(v[0], ast.stmt):
+                setattr(node, field, self._block(v))
+        return node
+
+    def visit_Lambda(self, node):
+        return node
+
+
+class _ContinueGuard(ast.NodeTransformer):
+    """for ...: if c: continue; REST   ->   for ...: if not c: REST     (c side-effect free is not needed: same order)"""
+    count = 0
+
+    def _loop(self, node):
+        self.generic_visit(node)
+        body = node.body
+        for i, st in enumerate(body):
+            if isinstance(st, ast.If) and not st.orelse and len(st.body) == 1 and isinstance(st.body[0], ast.Continue) \
+                    and i + 1 < len(body) and not any(isinstance(x, (ast.FunctionDef, ast.ClassDef)) for x in body[i + 1:]):
+                self.count += 1
+                node.body = body[:i] + [ast.If(test=_negate(st.test), body=body[i + 1:], orelse=[])]
+                break
+        return node
+
+    visit_For = visit_While = _loop
+
+
+class _NestAnd(ast.NodeTransformer):
+    """if a and b: X   ->   if a: if b: X      (no else branch)"""
+    count = 0
+
+    def visit_If(self, node):
+        self.generic_visit(node)
+        if not node.orelse and isinstance(node.test, ast.BoolOp) and isinstance(node.test.op, ast.And):
+            self.count += 1
+            vals = node.test.values
+            inner = ast.If(test=vals[-1], body=node.body, orelse=[])
+            for v in reversed(vals[:-1]):
+                inner = ast.If(test=v, body=[inner], orelse=[])
+            return inner
+        return node
+
+
+class _EarlyReturn(ast.NodeTransformer):
+    """def f(): ...; if c: BLOCK      ->   def f(): ...; if not c: return; BLOCK     (last statement, no else, no value returns needed)"""
+    count = 0
+
+    def visit_FunctionDef(self, node):
+        self.generic_visit(node)
+        last = node.body[-1]
+        is_gen = any(isinstance(n, (ast.Yield, ast.YieldFrom)) for n in ast.walk(node))
+        if isinstance(last, ast.If) and not last.orelse and len(node.body) >= 1 and not is_gen \
+                and not any(isinstance(x, (ast.FunctionDef, ast.ClassDef)) for x in last.body):
+            self.count += 1
+            node.body = node.body[:-1] + [ast.If(test=_negate(last.test), body=[ast.Return(value=None)], orelse=[])] + last.body
+        return node
+
+
+class _SortMethods(ast.NodeTransformer):
+    """methods of a class in alphabetical order (other class-level statements stay in front, in their order;
+    defs that share a name - property setters - keep their relative order; decorated defs that refer to another
+    def of the class by name - @x.setter - stay behind it)"""
+    count = 0
+
+    def visit_ClassDef(self, node):
+        self.generic_visit(node)
+        defs = [s for s in node.body if isinstance(s, (ast.FunctionDef, ast.AsyncFunctionDef))]
+        if len(defs) < 2:
+            return node
+        first_def = node.body.index(defs[0])
+        # only reorder when everything after the first def is a def (class-level statements may use earlier defs)
+        if any(not isinstance(s, (ast.FunctionDef, ast.AsyncFunctionDef)) for s in node.body[first_def:]):
+            return node
+        names = {d.name for d in defs}
+        for d in defs:
+            for dec in d.decorator_list:
+                for n in ast.walk(dec):
+                    if isinstance(n, ast.Name) and n.id in names:
+                        return node
+            for default in d.args.defaults + [x for x in d.args.kw_defaults if x is not None]:
+                for n in ast.walk(default):
+                    if isinstance(n, ast.Name) and n.id in names:
+                        return node
+        new = sorted(defs, key=lambda d: d.name)       # stable: same names keep their order
+        if [d.name for d in new] != [d.name for d in defs]:
+            self.count += 1
+            node.body = node.body[:first_def] + new
+        return node
+
+
+def ret_via_local_tree(root):
+    return _rewrite_tree(root, _RetViaLocal)
+
+
+def continue_guard_tree(root):
+    return _rewrite_tree(root, _ContinueGuard)
+
+
+def nest_and_tree(root):
+    return _rewrite_tree(root, _NestAnd)
+
+
+def early_return_tree(root):
+    return _rewrite_tree(root, _EarlyReturn)
+
+
+def sort_methods_tree(root):
+    return _rewrite_tree(root, _SortMethods)
